@@ -133,3 +133,57 @@ Fixpoint run_all (close_on_timeout : bool) (sh : shell) (cs : list cmd) : list (
 (* the response of a command that prints [out] and exits with [code], cut into chunks *)
 Definition response (marker out : string) (code : N) : string :=
   out ++ marker ++ ":" ++ dec code ++ String nl EmptyString.
+
+(* ---------------------------------------------------------------- BaseConnector.run, every argument combination *)
+(* BaseShell._read_without_output: the same loop; it stops on the same condition
+   (marker found and a newline after it) and returns None without parsing the status *)
+Fixpoint read_without_output (marker acc : string) (evs : list ev) : (unit + rerr) * list ev :=
+  match evs with
+  | [] => (inr EHang, [])
+  | TimeoutEv :: r => (inr ETimeout, r)
+  | Chunk EmptyString :: r => (inr ETerminated, r)
+  | Chunk c :: r =>
+      match parse marker (acc ++ c) with
+      | Some _ => (inl tt, r)
+      | None => read_without_output marker (acc ++ c) r
+      end
+  end.
+
+(* what run() returns: (output, status) when capture_output, else None; or an exception *)
+Definition outcome := (option (string * N) + rerr)%type.
+
+Record req := { r_job : bool;        (* job_name is not None *)
+                r_stdin : bool;      (* stdin is not None *)
+                r_capture : bool }.  (* capture_output *)
+Inductive via := ViaShell | ViaSubprocess.
+
+(* `if job_name is None and stdin is None:` *)
+Definition use_shell (q : req) : bool := negb (r_job q) && negb (r_stdin q).
+
+Definition execute_any (close_on_timeout capture : bool) (sh : shell) (marker : string) (resp : list ev)
+  : outcome * shell :=
+  if closed sh then (inr EClosed, sh)
+  else if capture then
+    match execute close_on_timeout sh marker resp with
+    | (inl r, sh1) => (inl (Some r), sh1)
+    | (inr e, sh1) => (inr e, sh1)
+    end
+  else
+    let (r, rest) := read_without_output marker EmptyString (app (pending sh) resp) in
+    match r with
+    | inl _ => (inl None, {| closed := false; pending := rest |})
+    | inr ETimeout => (inr ETimeout, {| closed := close_on_timeout; pending := rest |})
+    | inr e => (inr e, {| closed := false; pending := rest |})
+    end.
+
+(* [fresh]: what utils.run_in_subprocess gives for this command.  Result, shell afterwards, number of
+   times the command was started, and the path that produced the result. *)
+Definition run_any (close_on_timeout : bool) (sh : shell) (q : req) (marker : string) (resp : list ev)
+    (fresh : outcome) : outcome * shell * nat * via :=
+  if use_shell q then
+    let sh0 := if closed sh then new_shell else sh in
+    match execute_any close_on_timeout (r_capture q) sh0 marker resp with
+    | (inl r, sh1) => (inl r, sh1, 1, ViaShell)
+    | (inr _, sh1) => (fresh, sh1, 2, ViaSubprocess)      (* suppressed; the command runs again *)
+    end
+  else (fresh, sh, 1, ViaSubprocess).
